@@ -120,6 +120,23 @@ func c06Inputs(tier, mode string) []c06Input {
 		add("response error="+v, `{"jsonrpc":"2.0","id":1,"error":`+v+`}`, true)
 		add("method="+v, `{"jsonrpc":"2.0","id":9,"method":`+v+`}`, true)
 	}
+	// J. notifications of every kind x every params shape (incl. _meta of every JSON type); requests carrying _meta
+	metaShapes := []string{"\x00absent", `null`, `{}`, `[]`, `"s"`, `1`, `{"_meta":{}}`, `{"_meta":{"k":"v"}}`, `{"_meta":{"progressToken":7,"deep":{"a":[1,null]}}}`, `{"_meta":null}`, `{"_meta":"s"}`, `{"_meta":[1]}`, `{"_meta":1}`,
+		`{"_meta":{"k":"v"},"requestId":9,"reason":"r"}`, `{"progressToken":"t","progress":1.5,"total":"x","_meta":{"a":1}}`, `{"level":"info","data":{"x":1},"_meta":{"a":{"b":{}}}}`}
+	for _, m := range []string{"notifications/initialized", "notifications/cancelled", "notifications/progress", "notifications/roots/list_changed", "notifications/message", "notifications/no-such", "custom/notify", ""} {
+		for _, ps := range metaShapes {
+			body := `{"jsonrpc":"2.0","method":"` + m + `"`
+			if ps != "\x00absent" {
+				body += `,"params":` + ps
+			}
+			add(fmt.Sprintf("notification %s params=%s", m, truncate(ps, 40)), body+"}", true)
+		}
+	}
+	for _, m := range []string{"tools/call", "tools/list", "ping", "prompts/get", "resources/read"} {
+		for _, meta := range []string{`{}`, `{"progressToken":1}`, `{"progressToken":"t","x":[1]}`, `null`, `"s"`, `[1]`, `1`} {
+			add(fmt.Sprintf("request %s _meta=%s", m, meta), `{"jsonrpc":"2.0","id":9,"method":"`+m+`","params":{"name":"t","uri":"res://r","_meta":`+meta+`}}`, true)
+		}
+	}
 	// I. line-oriented oddities (meaningful on stdio, harmless garbage elsewhere)
 	add("blank", "\n\n", true)
 	add("cr-only", "\r\r", true)
